@@ -463,7 +463,7 @@ Record cpool := {
   cq : list nat;             (* _free_objects, head = next pop *)
   crec : list nat }.         (* this pool's recycler invocations, in order *)
 Record handle := { hobj : nat; hbind : option nat }.
-Inductive cres := CGot (o : nat) | CNone | CBlocked | CPushed (destroyed : bool) | CNew (o : nat) | CDied | CMoved | CSkip.
+Inductive cres := CGot (o : nat) | CNone | CBlocked | CPushed (destroyed : bool) | CNew (o : nat) | CDied | CMoved | CPoolMoved | CSkip.
 Record cst := {
   cpools : list cpool;
   hands : list handle;       (* handles held by the client, the first one is the operand of push / die / move *)
@@ -479,7 +479,9 @@ Inductive cop :=
 | CPushH (j : nat)     (* pool j .push(std::move(handle))            - the unique_ptr<T, Deleter> overload *)
 | CPushU (j : nat)     (* pool j .push(unique_ptr<T>{handle.release()}) - the unique_ptr<T> overload *)
 | CDie                 (* the first handle is destroyed: Deleter::operator() *)
-| CMove.               (* the first handle is moved (construction + assignment) to the end of the list *)
+| CMove                (* the first handle is moved (construction + assignment) to the end of the list *)
+| CMovePool (j : nat). (* pool j is moved (move construction / assignment = ConcurrentBoundedQueue::swap) into a fresh pool
+                          object that takes its place: the free list, capacity, creator and recycler are transferred *)
 
 Definition cinit (modes : list bool) (cap : nat) : cst :=
   {| cpools := map (fun m => {| cstrict := m; ccap := cap; cq := []; crec := [] |}) modes; hands := []; cfresh := 0;
@@ -557,5 +559,6 @@ Definition cstep (s : cst) (o : cop) : cst :=
     | h :: hs => with_hands s (hs ++ [h]) CMoved
     | [] => with_hands s [] CSkip
     end
+  | CMovePool j => with_hands s (hands s) CPoolMoved
   end.
 Definition crun (s : cst) (ops : list cop) : cst := fold_left cstep ops s.
